@@ -59,14 +59,12 @@ class AddDelete(Process):
         super().build(params)
 
         # stash the degree of new nodes for the events
-        self._c = params[self.DEGREE]
+        [self._c, pAdd, pDelete] = self.getParameters(params, [self.DEGREE, self.P_ADD, self.P_DELETE])
 
         # keep track of all the nodes and edges
         self.addLocus(self.NODES)
 
         # add events occurring at constant probability regardless of the network size
-        pAdd = params[self.P_ADD]
-        pDelete = params[self.P_DELETE]
         self.addFixedRateEvent(self.NODES, pAdd, self.add)
         self.addFixedRateEvent(self.NODES, pDelete, self.delete)
 
